@@ -100,7 +100,7 @@ def _pack(rep: FunctionReport):
                     "extra": {k: (v if isinstance(v, (str, int, float, list, dict, bool, type(None))) else str(v)) for k, v in ob.extra.items()},
                     "smt2": ob.smt2() if ob.status != "discharged" else "", "model_values": _model_values(ob)})
     return {"key": rep.key, "info": rep.info, "obligations": obs, "paths": rep.paths, "infeasible": rep.infeasible,
-            "inlined": rep.inlined, "dropped": rep.dropped, "error": rep.error, "error_kind": rep.error_kind, "time_s": rep.time_s}
+            "inlined": rep.inlined, "dropped": rep.dropped, "assumed": getattr(rep, "assumed", {}), "axioms": getattr(rep, "axioms", []), "used_contracts": getattr(rep, "used_contracts", []), "error": rep.error, "error_kind": rep.error_kind, "time_s": rep.time_s}
 
 
 def _model_values(ob: Obligation):
@@ -340,6 +340,9 @@ def run_property(build_mod: str, pid: str, argv=None) -> int:
                      "failures": len(b.failures), "time_s": round(b.time_s, 2), "samples": b.samples[:3],
                      "label": "bounded stand-in: NOT counted in obligations/discharged"} for b in bounded_results],
         "dropped_by_extraction": sorted({d for r in reports for d in r["dropped"]}) + ["docstrings", "type annotations"],
+        "assumed_contracts_used": [{"callee": k, "note": v} for k, v in sorted({k: v for r in reports for k, v in r.get("assumed", {}).items()}.items())],
+        "spec_function_axioms": sorted({a for r in reports for a in r.get("axioms", [])}),
+        "callee_contracts_relied_on_but_verified_in_another_check": sorted({k for r in reports for k in r.get("used_contracts", [])} - {r["key"] for r in reports}),
         "not_decided": prop.not_decided,
         "known_findings_reported": sorted(printed),
         "stale_known_findings": [r.get("id", r.get("what")) for r in stale],
